@@ -356,9 +356,20 @@ func VH_C11_DetachedViaParentAlias() {
 		return
 	}
 	h := hv.(*Array)
-	// detach through the second parent handle
+	// detach through the second parent handle, or by a bulk pop through the first
 	var detached Storable
-	if vhChoose("detach", 2) == 0 {
+	popped := false
+	dm := vhChoose("detach", 3)
+	if dm == 2 {
+		err = p1.PopIterate(func(s Storable) {
+			if id, ok := s.(SlabIDStorable); ok && SlabID(id) != h.SlabID() {
+				vhDispose(storage, s)
+			}
+		})
+		vhAssert(err == nil, "detach by bulk pop of the nested parent")
+		pm = nil
+		popped = true
+	} else if dm == 0 {
 		detached, err = p2.Remove(childIdx)
 		vhAssert(err == nil, "detach by remove")
 	} else {
@@ -370,12 +381,21 @@ func VH_C11_DetachedViaParentAlias() {
 		return
 	}
 	sid, isRef := detached.(SlabIDStorable)
-	vhAssert(isRef, "detached child is handed back as an independently stored value")
-	if !isRef {
-		return
+	if !popped {
+		vhAssert(isRef, "detached child is handed back as an independently stored value")
+		if !isRef {
+			return
+		}
 	}
 	for op := 0; op < nops; op++ {
-		switch vhChoose("op", 2) {
+		switch vhChoose("op", 3) {
+		case 2: // the emptied former parent is used again through the same handle
+			if !popped {
+				return
+			}
+			err := p1.Append(vElem{tag: uint64(80 + op), size: vhRange32("sibsz", 1, 40)})
+			vhAssert(err == nil, "append to the former parent after its bulk pop")
+			pm = append(pm, uint64(80+op))
 		case 0:
 			t := uint64(50 + op)
 			err := h.Append(vElem{tag: t, size: vhRange32("csz", 1, 200)})
@@ -413,6 +433,10 @@ func VH_C11_DetachedViaParentAlias() {
 		}
 	}
 	vhAssert(h.ValueID() == childVID, "detached child keeps its value id")
+	if popped {
+		vhReach("detached-done")
+		return
+	}
 	vhAssert(!h.Inlined(), "detached child is standalone")
 	re, rerr := NewArrayWithRootID(storage, SlabID(sid))
 	vhAssert(rerr == nil, "detached child reloadable by its identifier")
